@@ -10,6 +10,8 @@ CONSTANTS
   PhraseSets <- PS_None
   InitShared = {{"D1"}}
   FriendUsers = {}
+  InitSess = {TRUE}
+  MaxSess = 0
   MaxCfg = 3
   MaxReq = 1
   MaxEnv = 1
@@ -19,6 +21,7 @@ CONSTANTS
   DirReplyLocks = TRUE
   ScanDirCycles = TRUE
   AlwaysAccumulate = FALSE
+  TickReportsAlways = TRUE
   FlagsTakenAtStart = TRUE
   RevertWithinTick = FALSE
 INVARIANT TypeOK
